@@ -40,22 +40,32 @@ type LoopSpec struct {
 // external/library function ("ext", assumed), or on an interface method
 // ("iface", assumed for arbitrary implementers).
 type FuncContract struct {
-	Kind     string // func ext iface
-	Name     string // qualified name, e.g. "socket.(*message).Reset"
-	Pkg      string // short package of the contract file
-	Props    []string
-	Flags    map[string]bool
-	Params   []string // explicit parameter names for ext/iface (receiver first)
-	Requires []*Clause
-	Ensures  []*Clause
-	Lets     []*LetDef
-	Modifies []Expr
-	ModAll   bool
-	HasMod   bool
-	Loops    map[int]*LoopSpec
-	File     string
-	Line     int
-	Trusted  bool // "func" contract that is used at call sites but whose body is not verified (stated)
+	Kind      string // func ext iface
+	Name      string // qualified name, e.g. "socket.(*message).Reset"
+	Pkg       string // short package of the contract file
+	Props     []string
+	Flags     map[string]bool
+	Params    []string // explicit parameter names for ext/iface (receiver first)
+	Requires  []*Clause
+	Ensures   []*Clause
+	Lets      []*LetDef
+	GhostSets []*GhostSet // ghost assignments performed at the normal exit (ghost code of the contract)
+	Modifies  []Expr
+	ModAll    bool
+	HasMod    bool
+	Loops     map[int]*LoopSpec
+	File      string
+	Line      int
+	Trusted   bool // "func" contract that is used at call sites but whose body is not verified (stated)
+}
+
+// GhostSet: "ghostset loc = expr": at the normal exit the ghost location gets
+// the value of expr (old() = entry state, everything else = exit state).
+type GhostSet struct {
+	Loc  Expr
+	Val  Expr
+	Src  string
+	Line int
 }
 
 type SpecFn struct {
@@ -123,6 +133,18 @@ type WritesDecl struct {
 	Line        int
 }
 
+// SharedInv: invariant of a shared field that every goroutine maintains (rely =
+// guarantee = the invariant): assumed after interference, checked after every
+// atomic write.
+type SharedInv struct {
+	Rely    Expr // assumed after interference, not checked (stated assumption)
+	RelySrc string
+	E    Expr
+	Src  string
+	Recv string
+	Pkg  string
+}
+
 type EnumDecl struct {
 	Spec, Type string
 	Props      []string
@@ -139,10 +161,12 @@ type CallSitesDecl struct {
 }
 
 type ContractDB struct {
+	SharedInv      map[string]*SharedInv
 	Enums          []*EnumDecl
 	CallSites      []*CallSitesDecl
 	FuncAlias      map[string]string // "pkg.Var" -> full name of the function the variable is initialised with
 	FuncAliasProps map[string][]string
+	Shared         map[string]bool     // "pkg.T.field": atomically accessed field subject to arbitrary interference between steps
 	LibFrame       map[string]bool     // library packages assumed not to touch module-private state
 	ZeroGlobals    map[string][]string // "pkg.name" -> properties: never assigned, keeps its zero value
 	ConstGlobals   map[string][]string // "pkg.name" -> properties: assigned once in init with a fresh object
@@ -163,8 +187,8 @@ type ContractDB struct {
 
 var clauseRe = regexp.MustCompile(`^(requires|ensures|invariant|assert)(\?)?(\[[^\]]*\])?(!)?\s*(.*)$`)
 
-var topKeywords = map[string]bool{"funcalias": true, "libframe": true, "enumerates": true, "callsites": true, "zeroglobal": true, "constglobal": true, "writes": true, "covers": true, "func": true, "ext": true, "iface": true, "spec": true, "ghost": true, "axiom": true, "sealed": true, "lemma": true, "pure": true, "class": true, "trusted": true}
-var subKeywords = map[string]bool{"property": true, "flags": true, "requires": true, "ensures": true, "modifies": true, "loop": true, "let": true, "params": true}
+var topKeywords = map[string]bool{"shared": true, "funcalias": true, "libframe": true, "enumerates": true, "callsites": true, "zeroglobal": true, "constglobal": true, "writes": true, "covers": true, "func": true, "ext": true, "iface": true, "spec": true, "ghost": true, "axiom": true, "sealed": true, "lemma": true, "pure": true, "class": true, "trusted": true}
+var subKeywords = map[string]bool{"ghostset": true, "property": true, "flags": true, "requires": true, "ensures": true, "modifies": true, "loop": true, "let": true, "params": true}
 
 func firstWord(s string) string {
 	s = strings.TrimSpace(s)
@@ -307,6 +331,20 @@ func (db *ContractDB) parseFile(path, pkg string) error {
 				return fail(l, "%v", err)
 			}
 			cur.Lets = append(cur.Lets, &LetDef{strings.TrimSpace(rest[:i]), e, rest})
+		case "ghostset":
+			i := strings.Index(rest, "=")
+			if cur == nil || i < 0 {
+				return fail(l, "ghostset loc = expr")
+			}
+			le, err := ParseExpr(strings.TrimSpace(rest[:i]))
+			if err != nil {
+				return fail(l, "%v", err)
+			}
+			ve, err := ParseExpr(strings.TrimSpace(rest[i+1:]))
+			if err != nil {
+				return fail(l, "%v", err)
+			}
+			cur.GhostSets = append(cur.GhostSets, &GhostSet{Loc: le, Val: ve, Src: rest, Line: l.line})
 		case "modifies":
 			if cur == nil {
 				return fail(l, "modifies outside a contract")
@@ -425,6 +463,54 @@ func (db *ContractDB) parseFile(path, pkg string) error {
 			}
 			lm.E = e
 			db.Lemmas = append(db.Lemmas, lm)
+		case "shared":
+			cur = nil
+			// shared (*T).field ...
+			if db.Shared == nil {
+				db.Shared = map[string]bool{}
+			}
+			// shared (*T).field [inv <expr over self>]
+			decl := rest
+			var inv Expr
+			invSrc := ""
+			var rely Expr
+			relySrc := ""
+			if k := strings.Index(rest, " rely "); k >= 0 {
+				relySrc = strings.TrimSpace(rest[k+6:])
+				rest = rest[:k]
+				decl = rest
+				e, err := ParseExpr(relySrc)
+				if err != nil {
+					return fail(l, "%v", err)
+				}
+				rely = e
+			}
+			if k := strings.Index(rest, " inv "); k >= 0 {
+				decl = rest[:k]
+				invSrc = strings.TrimSpace(rest[k+5:])
+				e, err := ParseExpr(invSrc)
+				if err != nil {
+					return fail(l, "%v", err)
+				}
+				inv = e
+			}
+			for _, f := range strings.Fields(decl) {
+				i := strings.LastIndex(f, ".")
+				if i < 0 {
+					return fail(l, "shared (*T).field")
+				}
+				recv := strings.Trim(f[:i], "(*)")
+				if !strings.Contains(recv, ".") {
+					recv = pkg + "." + recv
+				}
+				db.Shared[recv+"."+f[i+1:]] = true
+				if inv != nil || rely != nil {
+					if db.SharedInv == nil {
+						db.SharedInv = map[string]*SharedInv{}
+					}
+					db.SharedInv[recv+"."+f[i+1:]] = &SharedInv{E: inv, Src: invSrc, Recv: recv, Pkg: pkg, Rely: rely, RelySrc: relySrc}
+				}
+			}
 		case "funcalias":
 			cur = nil
 			// funcalias erpc.NewStatus => github.com/henrylee2cn/goutil/status.New @C15
